@@ -71,7 +71,17 @@ def build_pools(p):
                 for w in spec.get(k, []) or []:
                     if w and w.lower() not in base_words and not any(ch.isdigit() for ch in w):
                         regional.append([loc, w, mi + 1])
-        pools[L] = {"regional": regional[:8], "months": months, "days": days, "rel": rel[:12], "relre": relre[:10], "nws": "no_word_spacing" in info, "skip": [s for s in info.get("skip", []) if s.strip() and len(s) > 1][:6], "locales": list(locmap.get(L, []))[:4]}
+        rel_regional = []
+        for loc, spec in (info.get("locale_specific") or {}).items():
+            for k, v in (spec.get("relative-type-regex") or {}).items():
+                for pat in v[:3]:
+                    s_ = re.sub(r"\(\\d\+\[\.,\]\?\\d\*\)", "3", pat)
+                    if "\\" not in s_ and "(" not in s_:
+                        rel_regional.append([loc, s_])
+            for k, v in (spec.get("relative-type") or {}).items():
+                for w in v[:2]:
+                    rel_regional.append([loc, w])
+        pools[L] = {"rel_regional": rel_regional[:12], "regional": regional[:8], "months": months, "days": days, "rel": rel[:12], "relre": relre[:10], "nws": "no_word_spacing" in info, "skip": [s for s in info.get("skip", []) if s.strip() and len(s) > 1][:6], "locales": list(locmap.get(L, []))[:4]}
     return {"order": list(languages_info.language_order), "langs": pools}
 
 
@@ -470,6 +480,22 @@ def gen_history(rng, pools, tier):
         for o in ops:
             if o["op"] == "search":
                 o["text"] = "it happened " + o.pop("s")
+    elif tmpl < 0.425:
+        # T13 sibling locales of one language (base language, regional variants) used one after the other
+        # with the SAME settings, on relative phrases: regional variants extend the relative vocabulary
+        cands = [l for l in pools["order"] if (pools["langs"].get(l) or {}).get("rel_regional")]
+        Lr = rng.choice(cands) if cands else None
+        if Lr:
+            Pl = pools["langs"][Lr]
+            rr = Pl["rel_regional"]
+            locs = sorted({x[0] for x in rr}) + list(Pl.get("locales") or [])[:2]
+            phrases = [x[1] for x in rr][:8] + (Pl.get("relre") or [])[:4] + (Pl.get("rel") or [])[:4]
+            st_ = rng.choice([None, None, {"RELATIVE_BASE": {"__dt__": [2020, 6, 15, 12, 0, 0, 0], "tz": None}}, {"PREFER_DATES_FROM": "past"}])
+            for _ in range(rng.choice([2, 3, 4])):
+                kw_ = {"locales": [rng.choice(locs)]} if rng.random() < 0.55 else {"languages": [Lr]}
+                if st_:
+                    kw_["settings"] = copy.deepcopy(st_)
+                ops.append({"op": "parse", "s": rng.choice(phrases), "kw": kw_, "clock_us": ops[-1]["clock_us"] if (ops and "clock_us" in ops[-1] and rng.random() < 0.7) else clock()})
     for i in range(n):
         r = rng.random()
         L, s = rng.choice(strings)
@@ -638,6 +664,22 @@ def exec_op(op, slots, keep=None):
 
             world.refresh()
             val = HijriCalendar(op["s"]).get_date()
+        elif kind == "absparse":
+            # the direct entry point of the absolute parser (what tests/test_date_parser.py drives)
+            import dateparser.date as _dd
+            from dateparser.date_parser import DateParser
+
+            val = DateParser().parse(op["s"], parse_method=_dd._parse_absolute)
+        elif kind == "search_obj":
+            from dateparser.search.search import DateSearchWithDetection
+
+            world.refresh()
+            val = DateSearchWithDetection().search_dates(op["text"], **kw)
+        elif kind == "detect_language":
+            from dateparser.search.search import DateSearchWithDetection
+
+            world.refresh()
+            val = DateSearchWithDetection().detect_language(op["text"], **kw)
         else:
             raise RuntimeError("unknown op " + kind)
         out = ["ok", canon_result(val)]
